@@ -29,6 +29,7 @@ SOCK = "/run/gv/u.sock"
 KEY_HUPCHILD = "hup-child-master-pidfile"
 KEY_BOTHSTOP = "simultaneous-stop-leaves-socket"
 KEY_ACCEPTED = "accepted-not-started-dropped"
+KEY_RX = "reexec-fork-reap-race"
 
 
 # ---------------------------------------------------------------------------------------------------------------------
@@ -494,9 +495,47 @@ def run_sim(ctx):
     return bad
 
 
+def race_cases():
+    """the fork / SIGCHLD race on reexec_pid (below the granularity of Model/Upgrade.v): the USR2 child dies and SIGCHLD is
+    handled at every yield point after the fork; afterwards the exit is certainly noticed, a second USR2 and a TERM follow"""
+    M = ("M",)
+    for unix in (True, False):
+        for i in range(0, 12):
+            yield unix, [M] * 12 + [("S", SIG["USR2"])] + [M] * i + [("X", 101, 0), ("C",)] + [M] * 6 + [("C",)] + \
+                [("S", SIG["USR2"])] + [M] * 10 + [("X", 102, 0), ("C",)] + [M] * 4 + [("S", SIG["TERM"])] + [M] * 20
+
+
+def run_race(ctx):
+    hits = 0
+    for unix, script in race_cases():
+        w = A.World2(workers=1, timeout=30, graceful=0, binds=(["unix:" + SOCK] if unix else ["127.0.0.1:8000"]), pidfile="g.pid")
+        try:
+            w.run(script, policy=A.fair_stop_policy())
+        finally:
+            w.cleanup()
+        ctx.count_case(("race", unix, len(script)), nontrivial=True)
+        masters = [p for p, m, _ in w.forks if m]
+        # signature: a master child was reaped while reexec_pid did not (yet) name it
+        raced = [p for (p, _), rx in zip(w.reaps, w.reaps_ctx) if p in masters and rx != p]
+        fails = []
+        reaped = [p for p, _ in w.reaps]
+        if 101 not in reaped or any(k["master"] for k in w.kids):
+            continue                # the child was not there yet when it was told to die, or a master child is still alive
+        if len(masters) < 2:
+            fails.append("the first re-executed master (pid 101) died and was reaped, yet a later USR2 was ignored: reexec_pid still names it")
+        if unix and w.outcome[0] == "exit" and SOCK not in w.fs_unlinked:
+            fails.append("the master exited alone (its re-executed child had died and been reaped) but did not unlink its unix socket file")
+        for f in fails:
+            hits += 1
+            ctx.violation(f, {"kind": "race", "unix": unix, "schedule": [list(x) for x in script], "master_forks": masters,
+                              "reaps": w.reaps, "reexec_pid_at_reaps": w.reaps_ctx}, key=KEY_RX if raced else None)
+    ctx.log("fork/SIGCHLD race on reexec_pid: %d delivery points, %d failures" % (24, hits))
+
+
 def run(ctx):
     ok = ctx.build()
     run_sim(ctx)
+    run_race(ctx)
     run_handover(ctx)
     run_real(ctx)
     ctx.cov["rule"] = ("upgrade histories: sequences of <= 10 events {USR2, TERM, child exit noticed (SIGCHLD), parent death noticed (main loop), "
@@ -511,6 +550,16 @@ def replay(rep):
             print(t)
         print("failures:", fails)
         return 1 if fails else 0
+    if rep.get("kind") == "race":
+        w = A.World2(workers=1, timeout=30, graceful=0, binds=(["unix:" + SOCK] if rep["unix"] else ["127.0.0.1:8000"]), pidfile="g.pid")
+        try:
+            w.run([tuple(x) for x in rep["schedule"]], policy=A.fair_stop_policy())
+        finally:
+            w.cleanup()
+        masters = [p for p, m, _ in w.forks if m]
+        print("master forks:", masters, "reaps:", w.reaps, "reexec_pid at each reap:", w.reaps_ctx, "unlinked:", w.fs_unlinked)
+        bad = len(masters) < 2 or (rep["unix"] and SOCK not in w.fs_unlinked)
+        return 1 if bad else 0
     if rep.get("kind") == "handover":
         ls = [((a if isinstance(a, str) else tuple(a)), b) for a, b in rep["listeners_raw"]]
         fs = handover_case(ls, rep["systemd"], rep["pidconf"])
